@@ -9,6 +9,9 @@ NOTE_COMMON = ("Trusted: go/ssa lowering (x/tools v0.29.0), the symgo executor's
                "in the evidence file (coverage.bounds / coverage.outside_claim) and DESIGN.md. unknown/timeout/unsupported are reported "
                "as INCONCLUSIVE, never as success or violation. ")
 claimed = {
+ 'C19': dict(cat='other', ref='5/C19 and 9',
+   text="What the solver-based machinery decides is a sequential statement that implies the property: on every symbolic path of a representative set of library calls (decode, encode, ciphering, MAC, accessors, conversions, QoS, UE policy, allocator) every store is proved to hit only objects owned by the call (receiver / output argument) or allocated during it, never the input, a shared message or package-level state; plus a whole-library SSA scan (2165 functions) proving that package-level variables are only read outside init and that no goroutine/channel construct exists. Race freedom and sequential consistency for arbitrary interleavings follow by the disjoint-footprint argument, which is reasoning in DESIGN.md, not a solver result.",
+   note="Level 'other': no schedule is explored; logrus, crypto/aes and fmt internals are trusted. A hidden global introduced in code no harness enters is caught by the SSA scan only."),
  'C18': dict(cat='model_checking', ref='5/C18',
    text="The three UE policy decoders run symbolically on every byte string up to 10 (13) octets (no panic, terminate). Command/complete/reject messages and nested lists built through the API with symbolic contents are encoded by the real code and decoded back; lengths are proved to be the ones computed from content and all fields equal. SetPlmnDigit output for every MCC/MNC is proved equal to nasConvert.PlmnIDToNas of the same digits (TS 24.008 digit order), and the parsers are proved to read it back.",
    note="Shapes up to 2 sub-lists x 2 instructions x 2 parts x 3 content octets."),
